@@ -1,21 +1,27 @@
 SPEC = dict(
     property='C09',
     level='other',
-    level_text='Mixed. PROVED deductively (every message, index and text): constructing the format error never raises (the index guard of '
-               'ProFormaFormatError.__init__), so an error reported at any position -- also one past the end -- reaches the caller as a '
-               'ValueError. BOUNDED (labelled): parse() over EVERY string of up to 4 (quick) / 5 (thorough) tokens of a 30-token notation '
-               'alphabet, sampled longer strings and single-token mutations of valid strings returns an annotation that serializes or raises '
-               'ValueError within 5 s; mass()/comp() raise a ValueError-family error for every modification position x a corpus of '
-               'unresolvable values and for every ontology entry without mass and formula. The recursive-descent parser class itself '
-               '(mutable cursor object, union-typed modification values) is not yet under deductive contract.',
-    level_note='The parser methods of _ProFormaParser are outside the deductive tier in this revision (planned: cursor invariant '
-               '0 <= position <= length, variants). Bounded tier: 5 s alarm as hang detector; corpus of unresolvable values is finite.',
+    level_text='Mixed, mostly deductive. PROVED (every input string, unbounded): the cursor helpers (_current, _peek, _skip, _parse_char, '
+               '_end_of_sequence), _parse_integer, _parse_modification, _parse_modifications and the three phases _parse_sequence_start / '
+               '_middle / _end of the real recursive-descent parser raise nothing but ValueError-family errors (no IndexError / TypeError / '
+               'AttributeError / KeyError obligation survives), keep the cursor invariant 0 <= position <= length == len(text), never move '
+               'backwards, and every loop has a strictly decreasing variant length - position (termination); constructing the format error '
+               'never raises. The two defects of the pinned tree (IndexError for a bracket group at the very end, TypeError for a numeric '
+               'global modification) are exactly the obligations no-IndexError / no-TypeError of _parse_sequence_start and were repaired. '
+               'BOUNDED (labelled): parse() end to end (the generator driver, _get_result, serialize of the result) over every string of up '
+               'to 4 / 5 tokens, sampled longer strings and single-token mutations; deferred validation (mass()/comp() raise for '
+               'unresolvable values and for ontology entries without mass and formula).',
+    level_note='Assumed (trusted, listed in evidence): the nine _add_* accumulator methods do not touch the cursor and raise at most ValueError; '
+               'the Mod constructor (dataclass + convert_type); int(text) raises ValueError or returns; str.isdigit uninterpreted. '
+               'Mod.val is modelled as a str|int|float union (kind tag). The driver _ProFormaParser.parse (generator) and module-level parse() '
+               'are bounded only.',
     design_ref='DESIGN.md section 6, C09',
     contracts=['parser'],
     bounded=[dict(name='C09-bounded', script='bounded/C09.py', timeout=7200)],
     replay_finder='bounded/C09.py',
     explanation='deductive obligations for the error object + exhaustive bounded enumeration of token strings; see proved/bounded clauses',
-    proved_clauses=['ProFormaFormatError.__init__ raises nothing for any (msg, index, sequence)'],
+    proved_clauses=['ProFormaFormatError.__init__ raises nothing for any (msg, index, sequence)',
+                    'cursor helpers, _parse_integer, _parse_modification(s), three phases: only ValueError-family exceptions, cursor invariant, forward progress, termination variants'],
     bounded_clauses=['parse(text) returns a serializable annotation or raises ValueError, and terminates: all strings of <= 4/5 tokens',
                      'deferred validation: unresolvable modification => mass/comp raise (9 positions x 14 values + ontology entries without mass)'],
     uncovered_clauses=['strings longer than the enumerated bound are sampled, not enumerated'],
